@@ -1573,6 +1573,56 @@ if !rt.ValidateAny(a$u) {
 }
 $out := $in
 
+### valnegvar guard validator
+@imports vprog/rt
+@body
+inv$u := !rt.Validate($in)
+var $out string
+if inv$u {
+	$out = $in
+} else {
+	return
+}
+
+### valnegvarfall guard validator
+@imports vprog/rt
+@body
+inv$u := !rt.Validate($in)
+if !inv$u {
+	return
+}
+$out := $in
+
+### valorforce guard validator
+@imports vprog/rt
+@body
+var $out string
+if rt.Validate($in) || rt.Cond($c) {
+	$out = $in
+} else {
+	return
+}
+
+### valshortthen guard validator
+@imports vprog/rt
+@body
+$out := $in
+if rt.Validate($in) {
+	rt.Nop()
+} else {
+	rt.Nop()
+	rt.Nop()
+	$out = $out + "u"
+}
+
+### vallogonly guard validator
+@imports vprog/rt
+@body
+if !rt.Validate($in) {
+	rt.Nop()
+}
+$out := $in
+
 ### valstruct guard validator
 @imports vprog/rt
 @decls
